@@ -249,7 +249,9 @@ def owners(div):
     if kind == "threads":
         # real threads: C20 always; cross-talk or a race inside poll / drain also breaks what C09 / C16 promise for each caller
         txt = " ".join(obs.get("fails") or []) + " " + (obs.get("tail") or "")
-        return {"C20"} | ({"C09"} if ("poll-" in txt or "reproc_poll" in txt) else set()) | ({"C16"} if (" drain " in txt or "reproc_drain" in txt) else set())
+        return ({"C20"} | ({"C09"} if ("poll-" in txt or "reproc_poll" in txt) else set()) | ({"C16"} if (" drain " in txt or "reproc_drain" in txt) else set())
+                | ({"C13"} if ("start-rejected-valid" in txt or "start-accepted-invalid" in txt or "parse_options" in txt) else set())
+                | ({"C12"} if "mask-after-start" in txt else set()))
     if kind == "optprod":
         return {"C13"}
     if kind == "rejected":
@@ -274,7 +276,7 @@ def owners(div):
             own |= {"C01"}
         return own
     if div.get("conc") or (isinstance(div.get("call"), dict) and div["call"].get("e") == "conc"):
-        return {"C20"} | ({"C11"} if "kids" in (div.get("keys") or []) else set())
+        return {"C20"} | ({"C11"} if "kids" in (div.get("keys") or []) else set()) | ({"C12"} if "tmasks" in (div.get("keys") or []) else set())
     if fn in ("start", "fork", "clone_start", "method", "consts") and isinstance(div.get("call"), dict) and "op" in div.get("call"):
         return {"C19"}
     keys = div.get("keys") or [div.get("key", "")]
@@ -1276,10 +1278,10 @@ PROPS = {
     "C06": {"families": ["stop", "faults", "two"], "title": "only the own unreaped child is signalled or waited for"},
     "C07": {"families": ["stop", "free"], "title": "stop sequences"},
     "C03": {"families": ["env", "env2", "real"], "title": "launch fidelity: argv, environment, working directory, program resolution"},
-    "C12": {"families": ["env", "env2", "faults", "real"], "title": "start leaves the caller untouched and gives the child a clean signal state"},
-    "C10": {"families": ["wiring", "real"], "title": "each standard stream is connected exactly where the options say"},
+    "C12": {"families": ["env", "env2", "faults", "conc", "threads", "real"], "title": "start leaves the caller untouched and gives the child a clean signal state"},
+    "C10": {"families": ["wiring", "restart", "real"], "title": "each standard stream is connected exactly where the options say"},
     "C11": {"families": ["wiring", "env2", "conc", "real"], "title": "nothing else is inherited"},
-    "C13": {"families": ["options", "optprod"], "title": "options rejected up front, accepted as documented"},
+    "C13": {"families": ["options", "optprod", "threads"], "title": "options rejected up front, accepted as documented"},
     "C04": {"families": ["faults", "env", "env2", "wiring", "restart"], "title": "start is all-or-nothing and reports the real cause"},
     "C05": {"families": ["faults", "anyfault", "wiring", "life"], "title": "no leak, no foreign or double close"},
     "C18": {"families": ["wincmd"], "title": "Windows command line and environment block",
@@ -1336,6 +1338,8 @@ def conclude(prop, tier, results, known, outdir, t0):
             model_viol.append((res["family"], res["tlc"]["invariant_violated"]))
         for d in res["bad"]:
             own = owners(d) | FAMILY_EXTRA_OWNERS.get(res["family"], set())
+            if res["family"] == "restart" and (d.get("fn") in ("read", "write", "poll", "close") or set(d.get("keys") or []) & {"nfd", "probe", "mon"}):
+                own |= {"C10"}   # which pipe ends the parent holds after the second start is the wiring contract's, whatever the first attempt left
             if res["family"] in ("env", "env2") and "r" in (d.get("keys") or []) and isinstance(d.get("obs"), dict) and d["obs"].get("r") == -2:
                 own |= {"C03"}   # the requested program was not found where the contract says it is: program resolution
             if "INFRA" in own:
